@@ -29,13 +29,31 @@ func c02RealConfigCases(col *Collector, focus string) {
 		{"unknown context, task allows failure", "    allow_failure: true\n    context: nosuch\n    command: [\"true\"]\n", true},
 		{"timeout, task allows failure", "    allow_failure: true\n    timeout: 200ms\n    command: [\"echo first >> TRACE; sleep 5\"]\n", true},
 	}
-	for _, v := range variants {
-		for _, stageAllows := range []bool{false, true} {
+	// sideFails: the independent stage `side` fails as well, for a reason of another kind than `first` (two failures
+	// of different kinds in one run: an exit status next to a template error, an unknown context, a timeout)
+	sideBodies := []string{"", "    context: nosuch-either\n", "    timeout: 150ms\n", "    before: [\"exit 9\"]\n"}
+	for vi, v := range variants {
+		for si, stageAllows := range []bool{false, true} {
+			sideBody := ""
+			if !stageAllows {
+				sideBody = sideBodies[(vi+si)%len(sideBodies)]
+				if vi == 1 {
+					sideBody = sideBodies[1] // `first` exits 3, `side` names an unknown context
+				}
+				if vi == 4 {
+					sideBody = "    before: [\"exit 9\"]\n" // not the same kind as first's unknown context
+				}
+			}
+			sideFails := sideBody != ""
 			dir := newScratchDir("c02r")
 			trace := filepath.Join(dir, "trace")
 			var b strings.Builder
 			b.WriteString("tasks:\n  first:\n" + strings.ReplaceAll(v.taskBody, "TRACE", trace))
-			fmt.Fprintf(&b, "  second:\n    command: [\"echo second >> %s\"]\n  third:\n    command: [\"echo third >> %s\"]\n  side:\n    command: [\"echo side >> %s\"]\n", trace, trace, trace)
+			sideCmd := fmt.Sprintf("echo side >> %s", trace)
+			if strings.Contains(sideBody, "timeout") {
+				sideCmd += "; sleep 5"
+			}
+			fmt.Fprintf(&b, "  second:\n    command: [\"echo second >> %s\"]\n  third:\n    command: [\"echo third >> %s\"]\n  side:\n%s    command: [\"%s\"]\n", trace, trace, sideBody, sideCmd)
 			b.WriteString("pipelines:\n  p:\n    - task: first\n")
 			if stageAllows {
 				b.WriteString("      allow_failure: true\n")
@@ -43,7 +61,7 @@ func c02RealConfigCases(col *Collector, focus string) {
 			b.WriteString("    - task: second\n      depends_on: [first]\n    - task: third\n      depends_on: [second]\n    - task: side\n")
 			os.WriteFile(filepath.Join(dir, "tasks.yaml"), []byte(b.String()), 0644)
 			cs := Case{Tags: []string{"real-runner-config"}, NonTrivial: true,
-				Replay: fmt.Sprintf("pipeline first -> second -> third, side; first: %s; stage allow_failure=%v (config: %s)", v.name, stageAllows, strings.ReplaceAll(b.String(), "\n", "\\n"))}
+				Replay: fmt.Sprintf("pipeline first -> second -> third, side; first: %s; stage allow_failure=%v; side fails too=%v (config: %s)", v.name, stageAllows, sideFails, strings.ReplaceAll(b.String(), "\n", "\\n"))}
 			func() {
 				defer func() {
 					if p := recover(); p != nil {
@@ -81,9 +99,10 @@ func c02RealConfigCases(col *Collector, focus string) {
 				ran := strings.Join(readTrace(trace), ",")
 				cs.Impl = fmt.Sprintf("first=%d second=%d third=%d side=%d err=%v ran=%s", st["first"], st["second"], st["third"], st["side"], serr != nil, ran)
 				blocked := v.failsStage && !stageAllows
-				want := fmt.Sprintf("first=%d second=%d third=%d side=%d err=%v", scheduler.StatusDone, scheduler.StatusDone, scheduler.StatusDone, scheduler.StatusDone, false)
+				sideSt := map[bool]int{false: scheduler.StatusDone, true: scheduler.StatusError}[sideFails]
+				want := fmt.Sprintf("first=%d second=%d third=%d side=%d err=%v", scheduler.StatusDone, scheduler.StatusDone, scheduler.StatusDone, sideSt, sideFails)
 				if blocked {
-					want = fmt.Sprintf("first=%d second=%d third=%d side=%d err=%v", scheduler.StatusError, scheduler.StatusCanceled, scheduler.StatusCanceled, scheduler.StatusDone, true)
+					want = fmt.Sprintf("first=%d second=%d third=%d side=%d err=%v", scheduler.StatusError, scheduler.StatusCanceled, scheduler.StatusCanceled, sideSt, true)
 				}
 				if focus == "C03" {
 					if os.Getenv("VERIF_DEBUG_C03") != "" {
